@@ -214,6 +214,16 @@ def zone_history(shape, ops, L):
                 post["C08 wf after shift"] = wf(z)
             elif op == "reread":
                 z.read(ra + shift, L)
+            elif op == "fork":
+                # a copy is written to: the original keeps the history it had (the copy owns its objects)
+                orig = z
+                z = z.copy()
+                w = Write(len(history), "bytes", 2, 1, V)
+                z.write(w.addr, w.payload, 1)
+                post["C08 wf of the written copy"] = wf(z)
+                post["C08 wf of the original after its copy was written"] = wf(orig)
+                check_read(orig, list(history), ra, L, rho, post, "original after its copy was written")
+                history.append(w)
         check_read(z, history, ra, L, rho, post, "read") if shift == 0 else _shifted(z, history, ra, L, rho, post, shift)
         return post
     name = "+".join("%s%d%s" % (k, n, "le" if e == 1 else "be") for (k, n, e) in shape)
@@ -348,7 +358,7 @@ def obligations(prop, tier, seed):
         o.weight = 8
         obs.append(o)
     # interleaved copy / restruct / shift
-    for ops in (["copy"], ["restruct"], ["shift"], ["reread", "copy", "restruct"]):
+    for ops in (["copy"], ["restruct"], ["shift"], ["reread", "copy", "restruct"], ["fork"]):
         for (p, q) in rng.sample(pairs, 4 if tier == "quick" else 16):
             o = zone_history(shape=[p, q], ops=ops, L=3)
             o.weight = 8
